@@ -87,6 +87,11 @@ def _run_second_use(case, g, tier, res, on_path, System):
                     {"kind": "second-use", "first": case["first"], "second": case["second"], "k": 3})
 
         (p1, u1, i1, n1), (p2, u2, i2, n2) = laws
+        # rng.choice without p is the uniform law
+        if p1 is None and n1 is not None:
+            p1 = [1.0 / n1] * n1
+        if p2 is None and n2 is not None:
+            p2 = [1.0 / n2] * n2
         if p1 is not None and p2 is not None:
             same = n1 == n2 and len(p1) == len(p2) and And(*[abs(a - b) < 1e-12 for a, b in zip(p1, p2)])
             c.prove(same, "a later use of the same system follows the pick law of the first", build)
@@ -240,7 +245,9 @@ def replay(rp, gb):
         smiles[i] = "C" * sizes[rank]
     masses = [12.011 * len(s) for s in smiles]
     total = 40000.0
-    text = "".join(f"{s}.|{fi!r}%|" for s, fi in zip(smiles[:-1], f[:-1])) + f"{smiles[-1]}.|{total * f[-1] / 100.0!r}|"
+    # the component with the largest share carries the absolute mass (a share of exactly 0 % cannot: a mass of 0 is not a specification)
+    jmax = max(range(k), key=lambda i: f[i])
+    text = "".join(f"{s}.|{total * fi / 100.0!r}|" if i == jmax else f"{s}.|{fi!r}%|" for i, (s, fi) in enumerate(zip(smiles, f)))
     if rp.get("what") == "components" and rp.get("text"):
         # components of one species: the case's own text, the fractions written onto the parsed mixtures as in the harness
         system = gb.System(rp["text"])
